@@ -5,7 +5,8 @@ history search for the ROS latch + child processes for the resource clause.
 
 Sub-checks (DESIGN.md "### C01"):
   1 confinement   probes for every forbidden ast.expr class of the running interpreter x strict
-                  holes of allowed contexts (depth <=2 quick / <=3 thorough) x 5 pathways x 4 tool sets;
+                  holes of allowed contexts (depth <=2 quick / <=3 thorough, innermost level of depth 3
+                  reduced to one representative per node class+field) x 5 pathways x 4 tool sets;
                   name universe x 7 call shapes with an audit hook, canaries and a table of
                   dangerous builtins; string-level pathway tricks.
   2 totality      every input above plus hostile strings, silent=True and silent=False (stdout is a
@@ -18,6 +19,12 @@ Oracle (from the property text only): a forbidden probe in a strict hole must yi
 (success => the evaluator evaluated the forbidden node, whatever its laziness); a name outside the
 documented pure set is judged by WITNESSED behaviour only; metabolize never raises; the call returns
 (success or failure result) before the deadline governed by timeout_seconds.
+
+Deviations from DESIGN.md: operator classes outside the documented table (BitOr, In, Is, ...) are observed
+(coverage.operators_accepted), not judged - the statement does not forbid them; keyword values of allow-listed
+calls are a skippable hole (this evaluator ignores keywords, C02's business) judged by a value witness; the
+deadline is CPU time enforced by the kernel (RLIMIT_CPU) so load cannot flip a verdict; the ROS history search
+is depth-bounded (float accumulation has no fixpoint); sys.setprofile tracing is not used.
 """
 from __future__ import annotations
 
@@ -198,20 +205,39 @@ LAZY1 = [("1 if 1 else §", (1,)), ("0 and §", (0, False)), ("1 or §", (1, Tru
 KWARG1 = [("round(2.567, ndigits=§)", (3,))]
 
 
+# one representative per (node class, field) the hole can sit in; used as the INNERMOST level at depth 3:
+# the walker dispatches on node class and field, the operator/function identity only selects the table entry
+# applied after the operands were evaluated.  Depths 1 and 2 use the full product (which contains the reduced
+# one), so the reduction is itself exercised exhaustively at the smaller size.
+REPR1 = ["§ + 1", "1 + §", "2 ** §", "-§", "not §", "abs(§)", "max(1, §)", "[§]", "(1, §)", "§ and 1", "0 or §",
+         "§ < 2", "0 < 1 < §", "1 if § else 2", "§ if 1 else 2", "2 if 0 else §"]
+assert set(REPR1) <= set(STRICT1)
+
+
 def contexts(depth):
-    """-> list of (template, kind, accept) ; kind in strict|toolarg|lazy|kwarg ; one hole each."""
+    """-> list of (template, kind, accept) ; kind in strict|toolarg|lazy|kwarg ; one hole each.
+    depth 1,2: full product of STRICT1; depth 3: STRICT1 x STRICT1 x REPR1 (innermost reduced)."""
     strict = [H]
     layer = [H]
-    for _ in range(depth):
-        layer = [o.replace(H, "(" + i + ")") if i != H else o for o in STRICT1 for i in layer]
+    for d in range(depth):
+        pool = REPR1 if (depth >= 3 and d == 0) else STRICT1
+        layer = [o.replace(H, "(" + i + ")") if i != H else o for o in pool for i in layer]
         strict += layer
+        if depth >= 3 and d == 0:
+            strict += [c for c in STRICT1 if c not in REPR1]
+        if depth >= 3 and d == 1:
+            # full depth-2 product as well
+            strict += [o.replace(H, "(" + i + ")") for o in STRICT1 for i in STRICT1]
     strict = list(dict.fromkeys(strict))
     # tool-arg and lazy wrappers are applied outermost over strict contexts of depth-1
     sub = [H]
     layer = [H]
-    for _ in range(depth - 1):
-        layer = [o.replace(H, "(" + i + ")") if i != H else o for o in STRICT1 for i in layer]
+    for d in range(depth - 1):
+        pool = REPR1 if (depth >= 3 and d == 0) else STRICT1
+        layer = [o.replace(H, "(" + i + ")") if i != H else o for o in pool for i in layer]
         sub += layer
+        if depth >= 3 and d == 0:
+            sub += [c for c in STRICT1 if c not in REPR1]
     out = [(c, "strict", None) for c in strict]
     for t in TOOLARG1:
         out += [(t.replace(H, "(" + i + ")") if i != H else t, "toolarg", None) for i in sub]
